@@ -305,7 +305,7 @@ impl Lifter {
     }
 }
 
-fn lift_program(p: &Program) -> Option<Program> {
+pub fn lift_program(p: &Program) -> Option<Program> {
     let mut l = Lifter { helpers: vec![], ctr: 0, failed: false };
     let mut out = p.clone();
     let mut new_helpers = vec![];
